@@ -10,24 +10,29 @@ RULE = ('exhaustive: all ordered pairs of polynomials of degree <= 2 with coeffi
         'scaling law Res(s f, t g) = s^deg g t^deg f Res(f, g) on pairs of implementation outputs; resultant_rational on the same integer '
         'inputs and on inputs with denominators; a share of every stream also in the release profile. Non-trivial = both non-constant. '
         'The model op resultant_x also returns its exactness flag; a false flag is reported as a disagreement; the last tag gives the count.')
-PROVED = ['[P] resultant_zero_l/_r, resultant_rational_zero: a zero argument gives 0 (no panic, either mode)',
-          '[P] resultant_consts: two non-zero constants give 1 with flag true, no panic in mode Checked (D2 is fixed)',
-          '[P] resultant_const_r / resultant_const_l: constant c against degree n gives c^n (both argument orders), flag true',
-          '[P] resultant_no_outoffuel, resultant_rational_no_outoffuel: supplied fuel suffices for all inputs (degree of the second argument strictly decreases)',
-          '[P] resultant_rational_total: for canonical inputs resultant_rational returns Done (no panic) in either mode',
-          '[P] resultant_rational_euclid: resultant_rational satisfies the Euclid recurrence res_euclid_spec (executable reference)',
-          '[C] resultant_flag_no_panic_partial: if the exactness flag of the run is true the run did not panic']
-NOT_PROVED = ['resultant f g = det(Sylvester f g) for all integer inputs (needs exactness of the a*b^delta divisions = sub-resultant structure theorem, and the Sylvester-matrix recurrence); checked by the Bareiss oracle on every case',
-              'resultant_rational f g = det(Sylvester f g): the recurrence resultant A B = (-1)^(dA dB) lc(B)^(dA-dR) resultant B R from the Sylvester matrix was not proved in MathComp; checked by the oracle on every case',
-              'exactness flag always true (sub-resultant structure theorem): observed true on every explored input',
-              'scaling law Res(s f, t g) = s^deg g t^deg f Res(f,g) (follows from the determinant; metamorphic oracle)']
+PROVED = ['[P] resultant_zero_l/_r, resultant_rational_zero_l/_r: a zero argument gives 0 (flag true, no panic, either mode)',
+          '[P] resultant_consts / resultant_rational_consts: two constants give 1, no panic in mode Checked (D2 is repaired)',
+          '[P] resultant_const_r / resultant_const_l / resultant_rational_const_r: constant c against degree n gives c^n (both argument orders), flag true',
+          '[P] resultant_no_outoffuel, resultant_rational_no_outoffuel: supplied fuel suffices for all coefficient lists',
+          '[P] resultant_rational_total: canonical inputs => resultant_rational returns a value (no assert, no usize underflow) in either mode',
+          '[P] resultant_rational_spec: canonical non-zero inputs => the value returned by resultant_rational is det(Sylvester_mx) of the refined polynomials (MathComp), for all inputs, either mode',
+          '[P] res_recurrence / resultant_redl / resultant_redr (any commutative ring) / resultant_swap / resultant_constl/_constr / resultant_scale: Sylvester-determinant identities proved from the matrix (new: mxpoly.v has none of them)',
+          '[P] resultant_linear_convention: resultant (X-a) (X-b) = b-a, fixing that the classical Res(f,g) is MathComp resultant g f',
+          '[P] prs_step / resultant_swap_idomain: pseudo-division step of the sub-resultant PRS at determinant level; symmetry over integral domains',
+          '[C] resultant_flag_no_panic_partial: canonical inputs, exactness flag true => the integer routine returned a value (no division by zero, no debug assertion, no underflow)',
+          '[C] resultant_int_partial: canonical non-zero inputs, exactness flag true, value v returned => v = det(Sylvester_mx (Poly g) (Poly f)) (Cohen bookkeeping invariant proved in ResInt.v)',
+          '[C] resultant_rational_agrees_partial: on integer inputs resultant_rational returns the same value as resultant whenever the integer run has flag true']
+NOT_PROVED = ['exactness flag always true (sub-resultant structure theorem: the divisions by a*b^delta and b^delta and the final g^n / b^(n-1) are exact): observed true on every explored input (count in the last tag); with it resultant_int_partial + resultant_flag_no_panic_partial would give resultant f g = det(Sylvester) unconditionally. Until then the equality is checked by the Bareiss oracle on every case',
+              'scaling law on the outputs of the integer routine: consequence of resultant_scale under the flag; metamorphic oracle']
 PROFILES = ('debug', 'release')
 
+TIMEOUT = 3600          # per service process; the extracted model computes with Coq's binary integers (slow on 64-bit coefficients)
+
 CLAIM = dict(
-    technique='Coq proofs about the Gallina model of resultant_smart / resultant_rational (special cases, termination, flag => no panic, Euclid recurrence) + extracted-model-vs-implementation correspondence + Bareiss Sylvester-determinant oracle on every case',
-    text='For all inputs: zero/constant special cases, fuel sufficiency, totality of resultant_rational, no panic whenever the exactness flag is true. '
-         'The equality with the Sylvester determinant is NOT proved in Coq; it is checked on every generated case by an independent fraction-free determinant.',
-    note='Exactness of the truncating divisions (sub-resultant structure theorem) and the Sylvester recurrence are not proved; the model records an exactness flag that was true on every explored input.',
+    technique='Coq proofs: (1) MathComp-level Sylvester-matrix recurrences (new) and the Euclid recursion = determinant; (2) refinement of the Gallina model of resultant_rational to it (resultant_rational_spec, all inputs); (3) integer sub-resultant routine: special cases, termination, and - conditional on the exactness flag computed by the model - no panic and value = determinant (resultant_int_partial); + extracted-model-vs-implementation correspondence + Bareiss Sylvester-determinant oracle on every case',
+    text='resultant_rational = det(Sylvester) is proved for all canonical non-zero inputs (zero inputs give 0), in both build modes. For the integer routine: zero/constant special cases and fuel sufficiency for all inputs; whenever the exactness flag of the run is true: no panic and value = det(Sylvester) ([C]). '
+         'That the flag is always true is not proved; the flag was true on every explored input and the determinant is re-checked on every generated case by an independent fraction-free computation.',
+    note='Exactness of the truncating divisions of resultant_smart (sub-resultant structure theorem) is not proved; the model records an exactness flag that was true on every explored input. MathComp lays the Sylvester matrix out low-degree first: the classical Res(f,g) is resultant g f (resultant_linear_convention).',
     ref='DESIGN.md section 4, C04')
 
 def o_res(f, g, rational=False):
@@ -87,7 +92,7 @@ def cases(rng, tier):
                 if th or k % 4 == 0: add_rat(f, g, tg + '/rational', 'release' if k % 3 == 0 else 'debug')
 
     # --- random dense
-    for _ in range(150 if not th else 3000):
+    for _ in range(150 if not th else 2000):
         df = rng.randrange(0, 13); dg = rng.randrange(0, 13)
         bits = rng.choice([2, 8, 32, 64])
         both(R.rpoly(rng, df, bits), R.rpoly(rng, dg, bits), 'random')
